@@ -29,9 +29,11 @@ import (
 	"verif/harness/internal/proto"
 )
 
-const rule = "histories of lookup/update/advance/stat on one accessor with both vacuum goroutines live; " +
-	"non-trivial = some transaction is looked up again after at least one applied update that followed its first lookup; " +
-	"distinct by (ops, answers)"
+const rule = "level 1: histories of lookup/update/advance/stat on one accessor with both vacuum goroutines live; " +
+	"non-trivial = some transaction is looked up again after at least one applied update that followed its first lookup. " +
+	"level 2 (glue): request/response SPOE messages (new and retried attempts) + reloads/reverts through the real handler and admin routes; " +
+	"non-trivial = a response whose transaction was first seen under other policies than the current ones, or a retried attempt " +
+	"(id != sequence_id) answered after a reload that followed the sequence's first attempt. distinct by (ops, answers)"
 
 const (
 	ttlNs  = int64(30 * time.Second) // staleVersionTTL as assumed by the generator (stated in the cfg op line)
@@ -230,12 +232,19 @@ var (
 	cache   = map[string][]string{}
 )
 
-func exec(c proto.Case, o *proto.Out) []string {
+func execAny(c proto.Case, o *proto.Out) []string {
 	key := strings.Join(c.Ops, "\n")
 	cacheMu.Lock()
 	outs, ok := cache[key]
 	delete(cache, key)
 	cacheMu.Unlock()
+	if isGlueCase(c) {
+		if !ok {
+			outs = getGlue().exec(c.Ops)
+		}
+		classifyGlue(c, outs, o)
+		return outs
+	}
 	if !ok {
 		outs = execCase(c)
 	}
@@ -309,6 +318,10 @@ func classify(c proto.Case, outs []string, o *proto.Out) {
 }
 
 func main() {
+	if os.Getenv(glueChildEnv) != "" {
+		glueChildMain()
+		return
+	}
 	// the HAProxy admin URL is fixed at package init from the environment: make sure it points at a
 	// closed port (rejected updates are part of the histories), re-executing once if needed.
 	if os.Getenv("HAPROXY_MANAGE_ENDPOINTS_PORT") != "1" {
@@ -321,7 +334,8 @@ func main() {
 		os.Exit(2)
 	}
 	zerolog.SetGlobalLevel(zerolog.Disabled)
-	proto.Main(proto.Harness{Rule: rule, Gen: gen, Exec: exec})
+	proto.Main(proto.Harness{Rule: rule, Gen: gen, Exec: execAny})
+	closeGlue()
 }
 
 // runParallel executes cases on worker goroutines and stores the answers in the cache.
